@@ -6,11 +6,11 @@
 #include "tree.h"
 
 enum { SH_DEFAULT, SH_DOTSUFFIX, SH_NOSUFFIX_NULL, SH_NOSUFFIX_EMPTY, SH_NOPROJECT, SH_PD2, SH_PD3, SH_PD4,
-       SH_CONFIGDIRS, SH_SETCONFDIRS, SH_DROPIN_ONLY_NULL, SH_DROPIN_ONLY_EMPTY, SH_REFUSE, SH_NOROOT, SH_ALTNAMES, SH_N };
+       SH_CONFIGDIRS, SH_SETCONFDIRS, SH_DROPIN_ONLY_NULL, SH_DROPIN_ONLY_EMPTY, SH_REFUSE, SH_NOROOT, SH_ALTNAMES, SH_BOTH_LISTS, SH_N };
 static const char *SHN[SH_N] = { "default", "dot-suffix", "suffix-NULL", "suffix-empty", "project-NULL", "PARSING_DIRS-2", "PARSING_DIRS-3",
-  "PARSING_DIRS-4", "CONFIG_DIRS", "econf_set_conf_dirs", "dropins-only(name NULL)", "dropins-only(name \"\")", "refuse-NULL-NULL", "no-ROOT_PREFIX", "default/dot-file-names" };
+  "PARSING_DIRS-4", "CONFIG_DIRS", "econf_set_conf_dirs", "dropins-only(name NULL)", "dropins-only(name \"\")", "refuse-NULL-NULL", "no-ROOT_PREFIX", "default/dot-file-names", "CONFIG_DIRS + econf_set_conf_dirs (object list wins)" };
 /* second name universe for the default shape: a dot file, dictionary-vs-byte order, the bare suffix, a name that only contains the suffix */
-static const char *UNI2[T_MAXU] = { ".h.conf", "a.conf", "B.conf", ".conf", "x.conf.bak", ".conf.h" };
+static const char *UNI2[T_MAXU] = { ".h.conf", "README", "a.conf", "B.conf", ".conf", "x.conf.bak", ".conf.h" };
 static const char *UNI[T_MAXU] = { "10-a.conf", "9-b.conf", "B.conf", "a.conf", "README", ".h.conf", ".conf", "x.conf.bak" };
 
 static int u_big = 5, u_small = 2;
@@ -76,8 +76,14 @@ static void setup_shape(int sh)
     ts.nu = u_small < 3 ? 3 : u_small; ts.uname[2] = "README";
     break;
   case SH_ALTNAMES:
-    ts.nu = u_small + 1 > 6 ? 6 : u_small + 1;
+    ts.nu = u_small + 2 > 7 ? 7 : u_small + 2;
     for (int i = 0; i < ts.nu; i++) ts.uname[i] = UNI2[i];
+    break;
+  case SH_BOTH_LISTS:
+    /* the list on the object has priority over the process-wide one (documented); a decoy in the process-wide directory must never be read */
+    snprintf(options, sizeof options, "ROOT_PREFIX=%s;CONFIG_DIRS=.d:.conf.d", root);
+    ts.ncd = 2; snprintf(ts.cd[0], sizeof ts.cd[0], ".d"); snprintf(ts.cd[1], sizeof ts.cd[1], ".conf.d");
+    ts.cd_disjoint = 1; ts.nu = u_small < 3 ? 3 : u_small; ts.uname[2] = "B.conf";
     break;
   case SH_REFUSE: a_project = NULL; a_name = NULL; ts.nu = 0; main_states = 1; break;
   case SH_NOROOT: options[0] = 0; a_project = "verif-no-such-project-c01"; a_usr = "/usr/lib"; ts.nu = 0; main_states = 1;
@@ -87,6 +93,13 @@ static void setup_shape(int sh)
   for (int l = 0; l < ts.nlayers; l++) snprintf(ts.layer_arg[l], sizeof ts.layer_arg[l], "%s", ts.layer_dir[l]);
   t_build_contents();
   t_setup_dirs();
+  if (sh == SH_BOTH_LISTS || sh == SH_DROPIN_ONLY_NULL) {
+    /* decoy drop-in directory named by the process-wide list only */
+    for (int l = 0; l < ts.nlayers; l++) {
+      char p[800]; snprintf(p, sizeof p, "%s/%s.glob.d", ts.layer_dir[l], ts.name); t_mkdirs(p);
+      snprintf(p, sizeof p, "%s/%s.glob.d/zz.conf", ts.layer_dir[l], ts.name); mc_write_file(p, "decoy=1\n", 8);
+    }
+  }
 }
 
 static void gen(void) { t_gen_state(&want, main_states); }
@@ -120,6 +133,7 @@ static void exec(void)
   econf_file *kf = NULL;
   econf_err rc;
   if (mc_tag == SH_SETCONFDIRS) { const char *dirs[] = { ".d", "/conf.d", NULL }; econf_set_conf_dirs(dirs); }
+  if (mc_tag == SH_BOTH_LISTS || mc_tag == SH_DROPIN_ONLY_NULL) { const char *dirs[] = { ".glob.d", NULL }; econf_set_conf_dirs(dirs); }
   if (options[0]) {
     rc = econf_newKeyFile_with_options(&kf, options);
     mc_st->libcalls++;
@@ -164,11 +178,11 @@ static void exec(void)
   if (rc != ECONF_SUCCESS) mc_outcome(9000 + (uint64_t)rc);
   if (kf) econf_freeFile(kf);
 out:
-  if (mc_tag == SH_SETCONFDIRS) { const char *none[] = { NULL }; econf_set_conf_dirs(none); }
+  if (mc_tag == SH_SETCONFDIRS || mc_tag == SH_BOTH_LISTS || mc_tag == SH_DROPIN_ONLY_NULL) { const char *none[] = { NULL }; econf_set_conf_dirs(none); }
   mc_st->compared++;
   if (na >= 2 || na < nlist) mc_st->nontrivial++;
   if (na < nlist) mc_extra(0, "trees_with_masked_file", 1);
-  mc_extra(1 + mc_tag, SHN[mc_tag], 1);
+  if (mc_tag < 14) mc_extra(1 + mc_tag, SHN[mc_tag], 1); else mc_extra(15, "further shapes", 1);
   if (mc_want_sample()) mc_sample("%s -> %d consulted, %d applied", sig.s, nlist, na);
   sb_free(&sig); sb_free(&why);
 }
